@@ -39,6 +39,7 @@ TraceReset ==
   /\ Consume("Reset")
   /\ paused' = FALSE /\ closed' = FALSE
   /\ ex' = [a \in Addr |-> FALSE] /\ att' = [a \in Addr |-> 0] /\ idx' = [a \in Addr |-> 0]
+  /\ nd' = [a \in Addr |-> 0] /\ cons' = [a \in Addr |-> 0]
   /\ pend' = [a \in Addr |-> <<>>] /\ gate' = [a \in Addr |-> <<>>] /\ infl' = [a \in Addr |-> <<>>]
   /\ last' = [act |-> "Init"]
 
